@@ -1,0 +1,5 @@
+//go:build !verif
+
+package txcache
+
+func verifPause(_ string) {}
